@@ -95,6 +95,7 @@ def main(argv):
     baseline = "--baseline" in argv
     tier = "thorough" if "--thorough" in argv else "quick"
     want = [a for a in argv if not a.startswith("--")]
+    skip = [x for a in argv if a.startswith("--skip=") for x in a[len("--skip="):].split(",")]
     if not clean():
         print("selftest: /repo has uncommitted changes to tracked files; refusing to run")
         return 2
@@ -105,6 +106,8 @@ def main(argv):
     failed = 0
     for name, props, patch in collect():
         if want and not any(w == name or w in props or name.startswith(w) for w in want):
+            continue
+        if name in skip:
             continue
         ap = git("apply", "--whitespace=nowarn", patch)
         if ap.returncode != 0:
